@@ -198,6 +198,13 @@ func (q *query) SQL() string {
 	return b.String()
 }
 
+func defaultGap(glue bool) string {
+	if glue {
+		return ""
+	}
+	return " "
+}
+
 func defaultGaps(glue []bool) []string {
 	g := make([]string, len(glue))
 	for i := range glue {
@@ -410,7 +417,7 @@ func (o opts) qualified() bool { return spellings[o.T1].Qualified || spellings[o
 // ---- gap styles -----------------------------------------------------------------------------------
 
 var gapStylesThorough = []string{"\n", "/*c*/", "--c\n", "/* from x */", "\t", "  ", "\r\n", "\f", " /* c */ ", " -- c\n", "-- join y\n", "/*/*n*/*/", "/* ' */", "\n\t "}
-var gapStylesQuick = gapStylesThorough[:4]
+var gapStylesQuick = gapStylesThorough[:3]
 var gapStylesUniformSmall = []string{"\n", "/*c*/", "--c\n", "/* ' */"}
 
 // sepVariants calls emit for the base query and for every separator variant: each single gap set to each
